@@ -22,12 +22,14 @@ requests fields                                -> the theory flag names, in orde
          theory <wire term>                    -> <T>   (TheoryOracle.get_theory, modelled)
          features <wire term>                  -> <T> q|qf   (specification: features the term uses)
          detect <wire term>                    -> ok <name> <qf> <T> | err <class>   (oracles.get_logic, modelled)
-         fragment <wire term>                  -> true|false   (hypothesis `inFragment` of the detection theorems)
+         fragment <wire term>                  -> true|false   (hypothesis `inFragment` of detect_covers_partial)
+         sorted <wire term>                    -> true|false   (hypotheses of detect_covers: well-sorted by Spec.HasType, no pow)
 anything else -> bad-op
 -/
 import PySMT.Gen.Logics
 import PySMT.Spec.LogicOrder
 import PySMT.Spec.Features
+import PySMT.Spec.HasType
 import PySMT.Impl.TheoryOracle
 import PySMT.Core.DriverLib
 open PySMT.Logics
@@ -92,6 +94,8 @@ def termAnswer (line : String) : Option String :=
       let t ← term
       return showT (Features.features t) ++ (if Features.hasQuant t then " q" else " qf")) toks
   | some "detect" => some <| DriverLib.handle (do let t ← term; return showR (TheoryOracle.getLogic t)) toks
+  | some "sorted" => some <| DriverLib.handle (do
+      let t ← term; return tf (t.sortOf.isSome && Features.noPow t)) toks
   | some "fragment" => some <| DriverLib.handle (do let t ← term; return tf (Features.inFragment t)) toks
   | _ => none
 
@@ -100,7 +104,7 @@ def answer (all : Array Theory) (line : String) : String :=
   | some a => a
   | none =>
   match line.splitOn " " with
-  | ["caps"] => "theory features detect fragment"
+  | ["caps"] => "theory features detect fragment sorted"
   | ["le", a, b] => rel2 Logic.le a b
   | ["lt", a, b] => rel2 Logic.lt a b
   | ["ge", a, b] => rel2 Logic.ge a b
